@@ -426,7 +426,21 @@ pub fn run(tier: Tier) -> Run {
     // (where the reference acceptor accepts the binary as well, the full oracle - layout-sorted reference re-encoding,
     //  word-identical for layout-ordered input - is applied in addition to the grammar-free one)
     let sw = crate::checks::c03::sweep(tier, &|id, m| {
-        let (v, label, acc) = raw_check(id, &m.what, &m.bytes);
+        let (mut v, label, acc) = raw_check(id, &m.what, &m.bytes);
+        // every unmodified seed once more from a byte slice that starts 1 / 2 / 3 bytes off a word boundary (load_bytes takes
+        // any &[u8]): the same words must come back
+        if v.is_none() && m.what.starts_with("k0") {
+            let off = 1 + m.bytes.len() % 3;
+            let mut store = vec![0u8; m.bytes.len() + 8];
+            let start = (4 - store.as_ptr() as usize % 4) % 4 + off;
+            store[start..start + m.bytes.len()].copy_from_slice(&m.bytes);
+            let (v2, label2, _) = raw_check(id, "misaligned-slice", &store[start..start + m.bytes.len()]);
+            if v2.is_some() {
+                v = v2;
+            } else if label2 != label {
+                v = Some(viol("C01:raw:misaligned-slice", format!("seed {}: loaded from a slice {} byte(s) off a word boundary the binary is {}, from an aligned one {}", id, off, label2, label), json!({"kind": "bytes", "bytes": hex(&m.bytes), "misaligned": off})));
+            }
+        }
         if v.is_none() && acc {
             if let crate::acceptor::Verdict::Accept { version, bound, insts } = crate::acceptor::accept(&m.bytes) {
                 if m.bytes.len() % 4 == 0 {
@@ -574,6 +588,54 @@ pub fn run(tier: Tier) -> Run {
             })
             .collect();
         run.outcome("dense_large_modules", ks.len() as u64);
+        // many functions: N = 2..=40, 64, 100, 300 functions with distinct ids, all with a body except ONE body-less
+        // declaration at the front / in the middle / at the end (and none): every function comes back where it was
+        {
+            use crate::model::{enc, header, Arg, Inst};
+            let mut work: Vec<(usize, Option<usize>)> = vec![];
+            for n in (2..=40usize).chain([64, 100, 300]) {
+                for d in [None, Some(0), Some(n / 2), Some(n - 1), Some(1)] {
+                    work.push((n, d));
+                }
+            }
+            let res: Vec<Option<Viol>> = work
+                .par_iter()
+                .map(|&(n, decl)| {
+                    let mut w = header(0x0001_0300, 0, 10_000);
+                    w.extend(enc(&Inst::new("TypeVoid", None, Some(1), vec![])));
+                    w.extend(enc(&Inst::new("TypeFunction", None, Some(2), vec![Arg::IdRef(1)])));
+                    for k in 0..n {
+                        let fid = 100 + 10 * k as u32;
+                        w.extend(enc(&Inst::new("Function", Some(1), Some(fid), vec![Arg::Mask("FunctionControl", (k % 4) as u32), Arg::IdRef(2)])));
+                        if decl != Some(k) {
+                            w.extend(enc(&Inst::new("Label", None, Some(fid + 1), vec![])));
+                            w.extend(enc(&Inst::new("Return", None, None, vec![])));
+                        }
+                        w.extend(enc(&Inst::new("FunctionEnd", None, None, vec![])));
+                    }
+                    let bytes = crate::model::words_to_bytes(&w);
+                    let (v, o, _) = raw_check("many-functions", &format!("functions:{}:declaration-at-{:?}", n, decl), &bytes);
+                    match v {
+                        Some(v) => Some(v),
+                        None if o == "not-loadable" => Some(viol("C01:many-functions:not-loaded", format!("a module of {} functions (body-less declaration at {:?}) is not loaded", n, decl), json!({"kind": "bytes", "bytes": hex(&bytes)}))),
+                        None => {
+                            // the input is in layout order: it comes back word for word (functions in the order they stood in)
+                            let out = guarded(|| dr::load_words(&w).map(|m| m.assemble())).ok().and_then(|r| r.ok()).unwrap_or_default();
+                            if out.len() != w.len() || out[5..] != w[5..] {
+                                let at = out.iter().zip(w.iter()).skip(5).position(|(a, b)| a != b).map(|p| p + 5);
+                                Some(viol("C01:many-functions:order", format!("a module of {} functions in layout order (body-less declaration at {:?}) does not come back word for word: first difference at word {:?}", n, decl, at), json!({"kind": "bytes", "bytes": hex(&bytes)})))
+                            } else {
+                                None
+                            }
+                        }
+                    }
+                })
+                .collect();
+            run.outcome("many_function_modules", work.len() as u64);
+            for v in res.into_iter().flatten() {
+                run.add(v);
+            }
+        }
         for v in res.into_iter().flatten() {
             run.add(v);
         }
